@@ -421,6 +421,16 @@ def run(tier):
         for k, m in scale_models(N).items():
             add("scale", k, {"entry": "xml_buffer", "text": xmlgen.render_xml(m), "timeout": 300, "write_xml": os.path.join(c.run_dir, "scale.xml"), "stack_mb": 8}, {"probe": k, "N": N, "backend": "document"})
             add("scale", k, {"builder": "pretty", "entry": "xml_buffer", "text": xmlgen.render_xml(m), "timeout": 300, "dump": False}, {"probe": k, "N": N, "backend": "pretty"})
+    # ---- 5a. depth instead of length: nests of 6 and of 24 levels whose text the library prints (a diagnostic quotes the expression): work that doubles per level
+    # is minutes at 24 levels and nothing at 6
+    def deep(kind, N):
+        inner = {"neg_plus": "-(1 + ", "not_and": "!(i > 0 && ", "ite": "(i > 0 ? 1 : ", "call": "fd(1 + "}[kind] * N + "i" + ")" * N
+        return {"decl": "int i; int fd(int q) { return q; }", "templates": [{"name": "T", "locations": [{"id": "id0", "name": "A"}], "init": "id0",
+                "edges": [{"src": "id0", "dst": "id0", "guard": "(%s).f > 0 && (%s).g(1) > 0" % (inner, inner)}]}], "system": "system T;"}
+    for N in (6, 24):
+        for k in ("neg_plus", "not_and", "ite", "call"):
+            add("scale", "deep_" + k, {"entry": "xml_buffer", "text": xmlgen.render_xml(deep(k, N)), "timeout": 120, "stack_mb": 8}, {"probe": "deep_" + k, "N": N, "backend": "document"})
+            add("scale", "deep_" + k, {"builder": "pretty", "entry": "xml_buffer", "text": xmlgen.render_xml(deep(k, N)), "timeout": 120, "dump": False}, {"probe": "deep_" + k, "N": N, "backend": "pretty"})
     # ---- 5b. entity references in attribute values (the readers are created with XML_PARSE_HUGE, which lifts libxml2's amplification limits)
     def entity_doc(levels):
         ents = '<!ENTITY e0 "aaaaaaaaaa">' + "".join('<!ENTITY e%d "%s">' % (k, ("&e%d;" % (k - 1)) * 10) for k in range(1, levels + 1))
